@@ -625,6 +625,15 @@ func c11Judge(c *run.Ctx, b []byte, family string) {
 	if !c.Guard("Disassemble", func() interface{} { return hx(b) }, func() { lst, lerr = decode.Disassemble(b) }) {
 		return
 	}
+	// validation-only use of Decode (a nil Destination) accepts the same inputs
+	var nerr error
+	if !c.Guard("Decode(nil destination)", func() interface{} { return hx(b) }, func() { nerr = decode.Decode(nil, b) }) {
+		return
+	}
+	if (nerr == nil) != (lerr == nil) {
+		c.Violate("accept-differs", map[string]interface{}{"family": family, "input": hx(b), "decode_with_nil_destination": errStr(nerr), "disassemble": errStr(lerr)})
+		return
+	}
 	nontrivial := derr == nil && len(ops) > 1
 	c.Eval(run.HashBytes(b), nontrivial)
 	if nontrivial && c.WantSample() {
